@@ -122,7 +122,7 @@ def run_case(case: Dict[str, Any]) -> CaseResult:
         if exc is not None:
             res.viol("error-" + ("building" if ex is None else "calling"), f"raised {type(exc).__name__}: {str(exc)[:300]}" + ctag)
             break
-        if val != ref_val or type(val) is not type(ref_val):
+        if prog.foreign_objects(val) or val != ref_val or not pc.same_container_kind(val, ref_val):
             res.viol("value", f"returned {val!r}, inlined reference {ref_val!r}" + ctag)
         got, want = pc.obs_counter(prog.observations(ex)), pc.obs_counter(R.obs)
         if got != want:
